@@ -8,7 +8,7 @@
     [realm_disclose_flag_origin_proof]. *)
 From Nexus Require Import Router.Realm Router.AssocLemmas Router.RealmLib Router.RealmProofs
      Router.RealmMetaProofs Router.RealmLeave.
-From Nexus Require Import Router.DealerLib Router.DealerProofs.
+From Nexus Require Import Router.DealerLib Router.DealerProofs Router.DealerWf.
 From Nexus Require Import Router.RealmWf Router.RealmStep Router.RealmIdle.
 From Nexus Require Import Router.RealmTraceLib Router.RealmTrace Router.RealmTraceC05.
 From Nexus Require Import Router.RealmTraceC12Dealer Router.RealmTraceC12Ev Router.RealmTraceC12Step
@@ -124,7 +124,7 @@ Theorem realm_invocation_identity_iff_proof : forall cfg pre o post y inv rid de
         exists rg ys,
           nget (d_regs (r_dealer r)) rid = Some rg /\ In y (reg_callees rg) /\
           find_session (r_clients r) y = Some ys /\
-          let allowed := reg_disclose rg ||
+          let allowed := reg_discloses rg y ||
                          (opt_bool opts "disclose_me" && c_disclose cfg &&
                           sess_feature ys "callee" "caller_identification") in
           dget det "caller" = (if allowed then Some (vid x) else None) /\
@@ -154,7 +154,7 @@ Theorem realm_no_identity_leak_invocation_proof : forall cfg pre o post y inv ri
       dget det "caller" = Some (vid x) /\
       dget det "caller_authid" = dget (s_details xs) "authid" /\
       dget det "caller_authrole" = dget (s_details xs) "authrole" /\
-      ((reg_disclose rg = true /\ disc_witness cfg pre rid) \/
+      ((In y (reg_disclose rg) /\ disc_witness cfg pre rid y) \/
        (opt_bool opts "disclose_me" = true /\ c_disclose cfg = true /\
         sess_feature ys "callee" "caller_identification" = true)).
 Proof.
@@ -164,7 +164,8 @@ Proof.
     as (x & m & orc & xs & q & opts & proc & rg & ys & Eo & Fx & Eg & Hb & Hr & Hc & Fy & Hy & Al & D1 & D2 & D3).
   exists x, m, orc, xs, q, opts, proc, rg, ys. repeat (split; [assumption|]).
   destruct Al as [Al|(A1 & A2 & A3)]; [left|right].
-  - split; [exact Al|]. exact (reg_origin_proof cfg pre rid rg y Ho1 Hk1 Hr Al Hc Hy).
+  - unfold reg_discloses in Al. apply nmem_In in Al. split; [exact Al|].
+    apply (reg_origin_proof cfg pre rid y Ho1 Hk1); [exists rg; split; assumption|exact Hy].
   - rewrite Ec in A2. auto.
 Qed.
 
@@ -183,7 +184,7 @@ Theorem realm_no_identity_leak_invocation_noauthz_proof : forall cfg pre o post 
       dget det "caller" = Some (vid x) /\
       dget det "caller_authid" = dget (s_details xs) "authid" /\
       dget det "caller_authrole" = dget (s_details xs) "authrole" /\
-      ((reg_disclose rg = true /\ disc_witness cfg pre rid) \/
+      ((In y (reg_disclose rg) /\ disc_witness cfg pre rid y) \/
        (opt_bool opts "disclose_me" = true /\ c_disclose cfg = true /\
         sess_feature ys "callee" "caller_identification" = true)).
 Proof.
@@ -195,42 +196,161 @@ Proof.
   exists x, orc, xs, q, opts, proc, rg, ys. split; [exact Eo|]. split; [exact Fx|exact Rest].
 Qed.
 
-(** ** The registration's flag *)
-Theorem realm_disclose_flag_origin_proof : forall cfg ops rid rg y,
-    Forall op_ok ops -> k0 cfg + N.of_nat (List.length ops) <= max_idN ->
-    nget (d_regs (r_dealer (fst (run (init_realm cfg) ops)))) rid = Some rg ->
-    reg_disclose rg = true -> In y (reg_callees rg) -> y <> meta_id ->
-    exists pre o post x m orc xs req opts proc,
+(** ** Who is in a registration's [reg_disclose], and since when *)
+
+(** [disc_witness] spelled out *)
+Lemma disc_witness_iff : forall cfg ops rid sid,
+    disc_witness cfg ops rid sid <->
+    exists pre o post m orc xs req opts proc,
       ops = pre ++ o :: post /\
-      let r1 := fst (run (init_realm cfg) pre) in
-      o = OMsg x m orc /\ find_session (r_clients r1) x = Some xs /\
-      gate r1 xs m = inl (CRegister req opts proc) /\
-      In (x, RRegistered req rid) (snd (step r1 o)) /\
+      o = OMsg sid m orc /\ find_session (r_clients (fst (run (init_realm cfg) pre))) sid = Some xs /\
+      gate (fst (run (init_realm cfg) pre)) xs m = inl (CRegister req opts proc) /\
+      In (sid, RRegistered req rid) (snd (step (fst (run (init_realm cfg) pre)) o)) /\
       opt_bool opts "disclose_caller" = true /\
-      (c_disclose cfg = true \/ attr_of (s_details xs) "authrole" = "trusted").
+      (c_disclose cfg = true \/ attr_of (s_details xs) "authrole" = "trusted") /\
+      forall mid rest, post = mid ++ rest ->
+        exists rg, nget (d_regs (r_dealer (fst (run (init_realm cfg) (pre ++ o :: mid))))) rid = Some rg /\
+                   In sid (reg_disclose rg).
 Proof.
-  intros cfg ops rid rg y Ho Hk H Hd Hy Hn.
-  destruct (reg_origin_proof cfg ops rid rg y Ho Hk H Hd Hy Hn) as (pre & o & post & E & C).
-  destruct C as (x & m & orc & xs & req & opts & proc & Eo & Fx & Eg & Hin & Hdc & Al).
-  exists pre, o, post, x, m, orc, xs, req, opts, proc. split; [exact E|]. cbv zeta.
-  rewrite run_cfg, init_realm_cfg in Al. auto 10.
+  intros cfg ops rid sid. unfold disc_witness, disc_asked, holds_flag. split.
+  - intros (pre & o & post & E & (m & orc & xs & req & opts & proc & Eo & Fx & Eg & Hin & Hd & Al) & Since).
+    rewrite run_cfg, init_realm_cfg in Al. exists pre, o, post, m, orc, xs, req, opts, proc. auto 12.
+  - intros (pre & o & post & m & orc & xs & req & opts & proc & E & Eo & Fx & Eg & Hin & Hd & Al & Since).
+    exists pre, o, post. split; [exact E|]. split; [|exact Since]. exists m, orc, xs, req, opts, proc.
+    rewrite run_cfg, init_realm_cfg. auto 10.
 Qed.
 
-(** [disc_witness] spelled out, for readers of the statements *)
-Lemma disc_witness_iff : forall cfg ops rid,
-    disc_witness cfg ops rid <->
-    exists pre o post x m orc xs req opts proc,
-      ops = pre ++ o :: post /\
-      o = OMsg x m orc /\ find_session (r_clients (fst (run (init_realm cfg) pre))) x = Some xs /\
-      gate (fst (run (init_realm cfg) pre)) xs m = inl (CRegister req opts proc) /\
-      In (x, RRegistered req rid) (snd (step (fst (run (init_realm cfg) pre)) o)) /\
-      opt_bool opts "disclose_caller" = true /\
-      (c_disclose cfg = true \/ attr_of (s_details xs) "authrole" = "trusted").
+Lemma prefix_hyps : forall cfg (a b : list op),
+    Forall op_ok (a ++ b) -> k0 cfg + N.of_nat (List.length (a ++ b)) <= max_idN ->
+    Forall op_ok a /\ k0 cfg + N.of_nat (List.length a) <= max_idN.
 Proof.
-  intros cfg ops rid. unfold disc_witness, disc_created. split.
-  - intros (pre & o & post & E & x & m & orc & xs & req & opts & proc & Eo & Fx & Eg & Hin & Hd & Al).
-    rewrite run_cfg, init_realm_cfg in Al. exists pre, o, post, x, m, orc, xs, req, opts, proc. auto 10.
-  - intros (pre & o & post & x & m & orc & xs & req & opts & proc & E & Eo & Fx & Eg & Hin & Hd & Al).
-    exists pre, o, post. split; [exact E|]. exists x, m, orc, xs, req, opts, proc.
-    rewrite run_cfg, init_realm_cfg. auto 10.
+  intros cfg a b Ho Hk. apply Forall_app in Ho. destruct Ho as [Ho1 _]. rewrite app_length in Hk. split; [exact Ho1|lia].
+Qed.
+
+Theorem realm_disclose_flag_origin_proof : forall cfg ops rid rg sid,
+    Forall op_ok ops -> k0 cfg + N.of_nat (List.length ops) <= max_idN ->
+    nget (d_regs (r_dealer (fst (run (init_realm cfg) ops)))) rid = Some rg ->
+    In sid (reg_disclose rg) -> sid <> meta_id ->
+    exists pre o post m orc xs req opts proc,
+      ops = pre ++ o :: post /\
+      let r1 := fst (run (init_realm cfg) pre) in
+      (* the session's own REGISTER, asking, admitted *)
+      o = OMsg sid m orc /\ find_session (r_clients r1) sid = Some xs /\
+      gate r1 xs m = inl (CRegister req opts proc) /\
+      In (sid, RRegistered req rid) (snd (step r1 o)) /\
+      opt_bool opts "disclose_caller" = true /\
+      (c_disclose cfg = true \/ attr_of (s_details xs) "authrole" = "trusted") /\
+      (* in every state since: in the list, a callee of [rid], attached *)
+      (forall mid rest, post = mid ++ rest ->
+         let r2 := fst (run (init_realm cfg) (pre ++ o :: mid)) in
+         client r2 sid /\
+         exists rg2, nget (d_regs (r_dealer r2)) rid = Some rg2 /\ In sid (reg_disclose rg2) /\ In sid (reg_callees rg2)) /\
+      (* no UNREGISTER of [rid] by it was answered UNREGISTERED since *)
+      (forall mid u rest m2 orc2 s2 q q', post = mid ++ u :: rest ->
+         let r2 := fst (run (init_realm cfg) (pre ++ o :: mid)) in
+         u = OMsg sid m2 orc2 -> find_session (r_clients r2) sid = Some s2 ->
+         gate r2 s2 m2 = inl (CUnregister q rid) -> ~ In (sid, RUnregistered q') (snd (step r2 u))).
+Proof.
+  intros cfg ops rid rg sid Ho Hk H Hy Hn.
+  destruct (reg_origin_proof cfg ops rid sid Ho Hk (ex_intro _ rg (conj H Hy)) Hn) as (pre & o & post & E & As & Since).
+  destruct As as (m & orc & xs & req & opts & proc & Eo & Fx & Eg & Hin & Hd & Al).
+  rewrite run_cfg, init_realm_cfg in Al.
+  exists pre, o, post, m, orc, xs, req, opts, proc. split; [exact E|]. cbv zeta.
+  repeat (split; [assumption|]). split.
+  - intros mid rest Ep. pose proof (Since mid rest Ep) as Hf.
+    assert (Hp : Forall op_ok (pre ++ o :: mid) /\ k0 cfg + N.of_nat (List.length (pre ++ o :: mid)) <= max_idN).
+    { apply (prefix_hyps cfg (pre ++ o :: mid) rest); rewrite <- app_assoc; cbn [app]; rewrite <- Ep, <- E; assumption. }
+    destruct Hp as [Hp1 Hp2].
+    destruct (holder_attached cfg (pre ++ o :: mid) rid sid Hp1 Hp2 Hf) as [(rg2 & H2 & Hc2) [Em|Cl]]; [contradiction|].
+    split; [exact Cl|]. destruct Hf as (rg3 & H3 & Hy3). exists rg3. split; [exact H3|]. split; [exact Hy3|]. congruence.
+  - intros mid u rest m2 orc2 s2 q q' Ep Eu F2 Eg2 Hin2.
+    assert (Hp : Forall op_ok (pre ++ o :: mid) /\ k0 cfg + N.of_nat (List.length (pre ++ o :: mid)) <= max_idN).
+    { apply (prefix_hyps cfg (pre ++ o :: mid) (u :: rest)); rewrite <- app_assoc; cbn [app]; rewrite <- Ep, <- E; assumption. }
+    destruct Hp as [Hp1 Hp2].
+    pose proof (reachable_realm_wf cfg _ Hp1 Hp2) as W2.
+    destruct (run_reg_inv cfg _ Hp1 Hp2) as [OK2 _].
+    rewrite Eu in Hin2.
+    apply (step_unregistered_drops_flag _ sid m2 s2 q rid q' orc2 W2 OK2 F2 Eg2 Hin2).
+    pose proof (Since (mid ++ [u]) rest) as Hf. rewrite <- app_assoc in Hf. specialize (Hf Ep).
+    replace (pre ++ o :: mid ++ [u]) with ((pre ++ o :: mid) ++ [u]) in Hf by (rewrite <- app_assoc; reflexivity).
+    rewrite run_app1, Eu in Hf. exact Hf.
+Qed.
+
+(** a session that is not attached holds no flag, and joining gives none: a
+    session id that left and joins again starts without it *)
+Theorem realm_rejoin_without_flag_proof : forall cfg ops sid l h rid,
+    Forall op_ok ops -> k0 cfg + N.of_nat (List.length ops) <= max_idN ->
+    sid <> meta_id -> ~ client (fst (run (init_realm cfg) ops)) sid ->
+    (forall rg, nget (d_regs (r_dealer (fst (run (init_realm cfg) ops)))) rid = Some rg -> ~ In sid (reg_disclose rg)) /\
+    (forall rg, nget (d_regs (r_dealer (fst (step (fst (run (init_realm cfg) ops)) (OJoin sid l h))))) rid = Some rg ->
+                ~ In sid (reg_disclose rg)).
+Proof.
+  intros cfg ops sid l h rid Ho Hk Hn Hc. split.
+  - intros rg H Hy. destruct (holder_attached cfg ops rid sid Ho Hk (ex_intro _ rg (conj H Hy))) as [_ [E|C]]; contradiction.
+  - intros rg H Hy. apply (join_no_flag cfg ops sid l h rid Ho Hk Hn Hc). exists rg. auto.
+Qed.
+
+(** ** The positive reading that replaced the refutation: caller identity
+    reaches a callee only if the caller asked (and the realm allows it and
+    this callee announced caller_identification) or THIS callee asked at its
+    own REGISTER and was allowed to *)
+Theorem realm_invocation_callee_asked_proof : forall cfg pre o post y inv rid det a k,
+    let ops := pre ++ o :: post in
+    let r := fst (run (init_realm cfg) pre) in
+    Forall op_ok ops -> k0 cfg + N.of_nat (List.length ops) <= max_idN ->
+    In (y, RInvocation inv rid det a k) (snd (step r o)) ->
+    dhas det "caller" = true \/ dhas det "caller_authid" = true \/ dhas det "caller_authrole" = true ->
+    (exists x m orc xs q opts proc ys,
+        o = OMsg x m orc /\ find_session (r_clients r) x = Some xs /\ gate r xs m = inl (CCall q opts proc a k) /\
+        opt_bool opts "disclose_me" = true /\ c_disclose cfg = true /\
+        find_session (r_clients r) y = Some ys /\ sess_feature ys "callee" "caller_identification" = true)
+    \/
+    (exists pre1 o1 post1 m1 orc1 ys1 q1 opts1 proc1,
+        pre = pre1 ++ o1 :: post1 /\
+        let r1 := fst (run (init_realm cfg) pre1) in
+        o1 = OMsg y m1 orc1 /\ find_session (r_clients r1) y = Some ys1 /\
+        gate r1 ys1 m1 = inl (CRegister q1 opts1 proc1) /\
+        In (y, RRegistered q1 rid) (snd (step r1 o1)) /\
+        opt_bool opts1 "disclose_caller" = true /\
+        (c_disclose cfg = true \/ attr_of (s_details ys1) "authrole" = "trusted")).
+Proof.
+  intros cfg pre o post y inv rid det a k ops r Ho Hk Hin Hd.
+  destruct (realm_no_identity_leak_invocation_proof cfg pre o post y inv rid det a k Ho Hk Hin Hd)
+    as (x & m & orc & xs & q & opts & proc & rg & ys & Eo & Fx & Eg & _ & _ & Fy & _ & _ & _ & _ & _ & Al).
+  destruct Al as [(_ & Wn)|(A1 & A2 & A3)].
+  - right. apply disc_witness_iff in Wn.
+    destruct Wn as (pre1 & o1 & post1 & m1 & orc1 & ys1 & q1 & opts1 & proc1 & E & Eo1 & F1 & Eg1 & Hin1 & Hd1 & Al1 & _).
+    exists pre1, o1, post1, m1, orc1, ys1, q1, opts1, proc1. cbv zeta. auto 10.
+  - left. exists x, m, orc, xs, q, opts, proc, ys. auto 10.
+Qed.
+
+Theorem realm_invocation_callee_asked_noauthz_proof : forall cfg pre o post y inv rid det a k,
+    let ops := pre ++ o :: post in
+    let r := fst (run (init_realm cfg) pre) in
+    c_authz cfg = None ->
+    Forall op_ok ops -> k0 cfg + N.of_nat (List.length ops) <= max_idN ->
+    In (y, RInvocation inv rid det a k) (snd (step r o)) ->
+    dhas det "caller" = true \/ dhas det "caller_authid" = true \/ dhas det "caller_authrole" = true ->
+    (exists x orc q opts proc ys,
+        o = OMsg x (CCall q opts proc a k) orc /\
+        opt_bool opts "disclose_me" = true /\ c_disclose cfg = true /\
+        find_session (r_clients r) y = Some ys /\ sess_feature ys "callee" "caller_identification" = true)
+    \/
+    (exists pre1 post1 orc1 ys1 q1 opts1 proc1,
+        pre = pre1 ++ OMsg y (CRegister q1 opts1 proc1) orc1 :: post1 /\
+        let r1 := fst (run (init_realm cfg) pre1) in
+        find_session (r_clients r1) y = Some ys1 /\
+        In (y, RRegistered q1 rid) (snd (step r1 (OMsg y (CRegister q1 opts1 proc1) orc1))) /\
+        opt_bool opts1 "disclose_caller" = true /\
+        (c_disclose cfg = true \/ attr_of (s_details ys1) "authrole" = "trusted")).
+Proof.
+  intros cfg pre o post y inv rid det a k ops r Ha Ho Hk Hin Hd.
+  destruct (reach_prefix cfg pre o post Ho Hk) as (_ & _ & _ & _ & Ec). fold r in Ec.
+  destruct (realm_invocation_callee_asked_proof cfg pre o post y inv rid det a k Ho Hk Hin Hd)
+    as [(x & m & orc & xs & q & opts & proc & ys & Eo & Fx & Eg & Rest)
+       |(pre1 & o1 & post1 & m1 & orc1 & ys1 & q1 & opts1 & proc1 & E & Eo1 & F1 & Eg1 & Rest)].
+  - left. fold r in Eg. rewrite gate_none in Eg by (rewrite Ec; exact Ha). inversion Eg; subst m.
+    exists x, orc, q, opts, proc, ys. split; [exact Eo|exact Rest].
+  - right. rewrite gate_none in Eg1 by (rewrite run_cfg, init_realm_cfg; exact Ha). inversion Eg1; subst m1.
+    exists pre1, post1, orc1, ys1, q1, opts1, proc1. cbv zeta. rewrite <- Eo1. auto 10.
 Qed.
